@@ -25,6 +25,7 @@ func runC16(c *Ctx) {
 	c.rule("C16.5", func() { c16Close(c) })
 	c.rule("C16.6", func() { c16Limit(c) })
 	c.rule("C16.7", func() { c16RoutedIDTracked(c) })
+	c.rule("C16.8", func() { c16Guarded(c) })
 }
 
 // allocFieldVal: for a composite literal allocation, the value stored into the field.
